@@ -22,7 +22,7 @@ use tokio_util::sync::CancellationToken;
 use tokio_util::task::TaskTracker;
 use tracing::{error, info, trace, warn};
 
-use async_channel::{Receiver, Sender, TryRecvError, bounded};
+use async_channel::{Receiver, Sender, TryRecvError, TrySendError, bounded};
 use async_lock::RwLock;
 
 use narwhal_protocol::ErrorReason::{
@@ -548,7 +548,15 @@ impl<D: Dispatcher> Conn<D> {
         // Handle pong message
         if let Message::Pong(params) = &msg {
           if let Some(notifier) = &self.pong_notifier {
-            notifier.send(params.id).await?;
+            // Never wait for the ping task here: that would stall the whole connection loop. A PONG that finds
+            // the slot still occupied cannot be the answer to an outstanding PING.
+            if let Err(TrySendError::Full(_)) = notifier.try_send(params.id) {
+              self.tx.close(Message::Error(ErrorParameters {
+                id: None,
+                reason: BadRequest.into(),
+                detail: Some(StringAtom::from("unexpected pong")),
+              }));
+            }
           }
           return Ok(());
         }
